@@ -1,3 +1,121 @@
+(* Property C02: compile-time evaluation yields the same values as run-time evaluation
+   (integer operators; floats are covered by correspondence only - see checks/C02.py).
+   Fold side = Model.fold_bin / fold_un / baked / conv_accepts (mirror of types.lua, cemitter.lua),
+   run-time side = Model.rt_bin / rt_un: the C the generator emits, under Base.CInt (Gnu mode),
+   with the helper functions taken verbatim from the generated C (Gen.v). *)
 From Base Require Import CInt.
-From C02 Require Import Gen Model Proofs.
+From C02 Require Import Gen Model ProofsHelpers ProofsHelpersCmp Proofs.
 Local Open Scope Z_scope.
+
+(* rt_is_modular, + - * and unary minus: for every pair of operand types and ALL integer operand
+   values the run time yields the exact result reduced into the result type *)
+Theorem C02_rt_is_modular_add : forall lt rt a b, wf_ity lt -> wf_ity rt ->
+  rt_bin Badd lt rt a b = Rval (rt_type Badd lt rt) (wrap (rt_type Badd lt rt) (a + b)).
+Proof. exact rt_add_modular. Qed.
+Print Assumptions C02_rt_is_modular_add.
+Theorem C02_rt_is_modular_sub : forall lt rt a b, wf_ity lt -> wf_ity rt ->
+  rt_bin Bsub lt rt a b = Rval (rt_type Bsub lt rt) (wrap (rt_type Bsub lt rt) (a - b)).
+Proof. exact rt_sub_modular. Qed.
+Print Assumptions C02_rt_is_modular_sub.
+Theorem C02_rt_is_modular_mul : forall lt rt a b, wf_ity lt -> wf_ity rt ->
+  rt_bin Bmul lt rt a b = Rval (rt_type Bmul lt rt) (wrap (rt_type Bmul lt rt) (a * b)).
+Proof. exact rt_mul_modular. Qed.
+Print Assumptions C02_rt_is_modular_mul.
+Theorem C02_rt_is_modular_unm : forall t a, wf_ity t -> rt_un Uunm t a = Rval t (wrap t (- a)).
+Proof. exact rt_unm_modular. Qed.
+Print Assumptions C02_rt_is_modular_unm.
+
+(* rt_is_modular, shifts: every emitted helper computes Nelua's documented shift on the
+   representation of its first parameter, for every value of its two parameters ... *)
+Theorem C02_rt_shift_helpers : forall t f a b, in_range t a -> in_range (to_signed t) b ->
+  (In (t, f) shl_table -> ccall Gnu f [a; b] = Oval (wrap t (exact_shl t a b))) /\
+  (In (t, f) shr_table -> wf_ity t -> ccall Gnu f [a; b] = Oval (wrap t (exact_shr t a b))) /\
+  (In (t, f) asr_table -> ccall Gnu f [a; b] = Oval (wrap t (exact_asr t a b))).
+Proof.
+  intros t f a b Ha Hb. repeat split; intros.
+  - apply shl_helper_correct; assumption.
+  - apply shr_helper_correct; assumption.
+  - apply asr_helper_correct; assumption.
+Qed.
+Print Assumptions C02_rt_shift_helpers.
+
+(* ... hence the operators are modular whenever the count is representable in the signed
+   version of the LEFT operand's type (partial: see C02_rt_shift_count_narrowed) *)
+Theorem C02_rt_is_modular_shifts_partial : forall lt rt a b,
+  wf_ity lt -> in_range lt a -> in_range (to_signed lt) b ->
+  rt_bin Bshl lt rt a b = Rval lt (wrap lt (exact_shl lt a b)) /\
+  rt_bin Bshr lt rt a b = Rval lt (wrap lt (exact_shr lt a b)) /\
+  rt_bin Basr lt rt a b = Rval lt (wrap lt (exact_asr lt a b)).
+Proof.
+  intros. repeat split; [apply rt_shl_partial | apply rt_shr_partial | apply rt_asr_partial]; assumption.
+Qed.
+Print Assumptions C02_rt_is_modular_shifts_partial.
+
+(* known defect: the count is narrowed to the left operand's type *)
+Theorem C02_rt_shift_count_narrowed :
+  rt_bin Bshl I8 I32 1 257 = Rval I8 2 /\ fold_bin Bshl I8 I32 1 257 false false = Fval I8 0 /\
+  exact_bin Bshl I8 1 257 = Some 0.
+Proof. exact rt_shift_count_narrowed. Qed.
+Print Assumptions C02_rt_shift_count_narrowed.
+
+(* comparisons: exact on both sides, for all types (mixed signedness included) and values *)
+Theorem C02_comparisons_agree : forall o lt rt a b, wf_ity lt -> wf_ity rt -> is_cmpop o = true ->
+  in_range lt a -> in_range rt b ->
+  rt_bin o lt rt a b = Rbool (cmp_value o a b) /\ fold_bin o lt rt a b false false = Fbool (cmp_value o a b).
+Proof.
+  intros. split; [apply rt_cmp_exact | apply fold_cmp_exact]; assumption.
+Qed.
+Print Assumptions C02_comparisons_agree.
+
+(* fold_agrees, full strength (Proofs.fold_agrees): for typed constant operands representable in
+   the run-time result type T, the folded (type, value) has its value inside its type; if the
+   exact result is representable in T the baked value is the exact result; otherwise the fold
+   carries the exact result or bakes what the run time computes.  FALSE on the unchanged tree: *)
+Theorem C02_fold_agrees_refuted : ~ fold_agrees.
+Proof. exact fold_agrees_refuted. Qed.
+Print Assumptions C02_fold_agrees_refuted.
+
+Theorem C02_fold_agrees_refuted_witnesses :
+  ~ fold_agrees_at Bmul I64 I64 9223372036854775807 3 /\ ~ fold_agrees_at Bshl I8 I8 77 2.
+Proof. split; [exact fold_agrees_refuted_mul | exact fold_agrees_refuted_shl]. Qed.
+Print Assumptions C02_fold_agrees_refuted_witnesses.
+
+(* fold_agrees_partial: + - * // % on typed constants fold to the exact result carried by a
+   type that holds it whenever int64 (or uint64 for unsigned, non-negative) can hold it *)
+Theorem C02_fold_agrees_partial : forall o lt rt a b e, wf_ity lt -> wf_ity rt -> exact_arith o = true ->
+  exact_bin o lt a b = Some e ->
+  (in_range I64 e \/ (sgn (promote_type lt rt) = false /\ 0 <= e /\ in_range U64 e)) ->
+  exists t', fold_bin o lt rt a b false false = Fval t' e /\ in_range t' e /\ baked t' e = e.
+Proof. exact fold_agrees_partial. Qed.
+Print Assumptions C02_fold_agrees_partial.
+
+(* wrap_value: correct only within |v| <= 2^bits (and always for unsigned types), always congruent *)
+Theorem C02_wrap_value_partial : forall t v, wf_ity t ->
+  ((- tmod t <= v <= tmod t \/ sgn t = false) -> wrap_value t v = wrap t v) /\
+  wrap t (wrap_value t v) = wrap t v.
+Proof.
+  intros t v Ht. split; [intros [H | H]|].
+  - apply wrap_value_one_wrap; assumption.
+  - apply wrap_value_unsigned; assumption.
+  - apply wrap_value_congruent; assumption.
+Qed.
+Print Assumptions C02_wrap_value_partial.
+
+Theorem C02_wrap_value_refuted :
+  exists t v, wf_ity t /\ wrap_value t v <> wrap t v /\ ~ in_range t (wrap_value t v).
+Proof. exact wrap_value_refuted. Qed.
+Print Assumptions C02_wrap_value_refuted.
+
+(* add_scalar_literal's re-wrap: what is printed is congruent to the constant, and is its
+   reduction into the type whenever |v| <= 2^bits *)
+Theorem C02_baked_literal : forall t v, wf_ity t ->
+  wrap t (baked t v) = wrap t v /\ (- tmod t <= v <= tmod t -> baked t v = wrap t v).
+Proof. intros t v Ht. split; [apply baked_congruent | apply baked_one_wrap]; assumption. Qed.
+Print Assumptions C02_baked_literal.
+
+(* conv_rejected_iff: an implicit constant conversion is rejected exactly when the destination
+   cannot represent the value - the condition under which C04_narrow_fires_iff shows the
+   run-time check fires *)
+Theorem C02_conv_rejected_iff : forall d v, conv_accepts d v = false <-> ~ in_range d v.
+Proof. exact conv_rejected_iff. Qed.
+Print Assumptions C02_conv_rejected_iff.
